@@ -42,6 +42,14 @@ def run(tier, seed, replay):
             print("no concrete input in this replay file; verifier output:")
             print(json.dumps(rp.get("verifier_output"), indent=1)[:3000])
             return 1
+        if task.get("op") == "position_one":
+            r = native_batch([{"op": "pipeline", "text": task["text"], "name": task["name"]}])[0]
+            t = task["text"]
+            nlines = max(1, t.count("\n") + (0 if t.endswith("\n") else 1))
+            bad = [(e["name"], h[0], h[1]) for e in r["errors"] for h in e["highlights"][:1]
+                   if not (1 <= h[0] <= nlines and h[1] >= 1)]
+            print(f"file of {nlines} lines; diagnostics outside it: {bad}")
+            return 1 if bad else 0
         r = run_native("errors_harness", task)
         print(json.dumps(r, indent=1)[:3000])
         return 1 if r.get("violations") else 0
@@ -214,6 +222,36 @@ def run(tier, seed, replay):
         chk.report_violation("C08.bounded.formats", {"property": "C08", "obligation": "C08.bounded.formats",
                                                      "replay": v["task"], "confirmed_on_real_code": True},
                              what=v["what"], confirmed=True)
+    # ---------------------------------------------------------------- 5. positions lie inside the file (bounded)
+    from .frames_common import sample_files
+    t0 = time.time()
+    files = sample_files(chk.repo.root, None if tier == "thorough" else 60)
+    long_ = "x" * 90
+    for k, sep in enumerate(["\x0c", "\x0b", "\x1c", "\x1d", "\x1e", "\x85", "\u2028", "\u2029", "\r"]):
+        files.append((f"ctl{k}.c", f"/* section 1 {sep} section 2 {sep} {long_} */\nint\tg_a = 1;{sep}\n// c {sep} {long_}\n"))
+        files.append((f"ctl{k}.h", f"/*\n** a{sep}b\n** {long_}{sep}{long_}\n*/\n\"s{sep}t\"\n"))
+    files.append(("nonl.c", "int\tmain(void)\n{\n\treturn (0);\n}"))
+    files.append(("empty.c", ""))
+    res = native_batch([{"op": "pipeline", "text": t, "name": n} for n, t in files])
+    bad = []
+    for (n, t), r in zip(files, res):
+        if r["exc"] or r["fatal"]:
+            continue
+        nlines = max(1, t.count("\n") + (0 if t.endswith("\n") else 1))
+        for e in r["errors"]:
+            for h in e["highlights"][:1]:
+                if not (1 <= h[0] <= nlines and h[1] >= 1):
+                    bad.append(((n, t), f"{n}: {e['name']} is reported at ({h[0]}, {h[1]}) in a file of {nlines} lines"))
+    chk.add_bounded("Lexer + Registry.run (whole pipeline)", "every diagnostic carries a position inside the file: "
+                    "1 <= line <= number of lines, column >= 1", f"{len(files)} files: repository samples, comments / strings "
+                    "containing form feed, vertical tab, FS/GS/RS, NEL, LS, PS, CR next to over-long lines, a file without "
+                    "final newline, an empty file", len(files), bad, nontrivial=len(files), time_s=time.time() - t0)
+    if bad and not chk.has_unlisted_failure():
+        (n, t), m = bad[0]
+        chk.report_violation("C08.bounded.positions_inside_the_file",
+                             {"property": "C08", "obligation": "C08.bounded.positions_inside_the_file",
+                              "replay": {"op": "position_one", "text": t, "name": n}, "confirmed_on_real_code": True},
+                             what=m, confirmed=True)
     chk.assumptions += [
         "list.sort obeys its documented contract for a comparator that is a strict weak order",
         "builtin min returns an element no other element is smaller than (for a strict weak order)",
